@@ -15,7 +15,9 @@ RULE = (
     "raises one of {ValueError, KeyError, RecursionError, a BaseException subclass, StopIteration}; required: the very exception "
     "object reaches the caller, and afterwards get_active_rules(), options, renderer rule names and all probe parses/renders equal "
     "those of a twin instance (same plug-ins, never armed). Mode 'fresh' uses a new instance per crash point, mode 'sequence' "
-    "subjects one instance to a random sequence of crash points, probing after each. reset_rules: entered from ordinary states and from states in which the inline or inline2 chain is empty; bodies that exit normally, raise "
+    "subjects one instance to a random sequence of crash points, probing after each. After every failed call one reconfiguration "
+    "(maxNesting lowered/raised, typographer/breaks/html/xhtmlOut flipped, quotes, langPrefix, rules disabled; through item and attribute "
+    "interface) is applied to the instance and to a live twin alike, both render probes sensitive to it, and the change is undone. reset_rules: entered from ordinary states and from states in which the inline or inline2 chain is empty; bodies that exit normally, raise "
     "(5 exception kinds), return/break out of the block, nested 2-3 deep with failures at each level, with rules enabled/disabled/"
     "added inside: rules in force afterwards must be those on entry. Non-trivial = crash point at which the exception really was "
     "raised inside the library; distinct by (document, api, callback, i, exception)."
@@ -38,6 +40,87 @@ PROBES = DOCS[:4] + ["*a* [r]\n\n[r]: /x\n", "```js\nq\n```\n",
                      "[t " + "[" * 12 + "x" + "]" * 12 + "](u) ![" * 3 + "a" + "](v)" * 3 + "\n", "- " * 9 + "deep\n"]
 
 
+def _opt(name, value):
+    """reconfiguration = one option set to a new value (through the item or the attribute interface), undone afterwards"""
+    def apply(md, via_attr):
+        old = md.options[name]
+        new = (not old) if value is _FLIP else value
+        if via_attr:
+            setattr(md.options, name, new)
+        else:
+            md.options[name] = new
+        return old
+
+    def undo(md, old, via_attr):
+        if via_attr:
+            md.options[name] = old
+        else:
+            setattr(md.options, name, old)
+    return apply, undo
+
+
+def _rules(names):
+    def apply(md, via_attr):
+        md.disable(names, True)
+        return None
+
+    def undo(md, old, via_attr):
+        md.enable(names, True)
+    return apply, undo
+
+
+_FLIP = object()
+NEST = ["[a [b [c [d [e](u)](u)](u)](u)](u) ![a ![b ![c ![d](u)](u)](u)](u)\n", "> > > > > q\n\n- - - - x\n", "*a **b *c **d *e* d** c* b** a*\n",
+        "[" * 30 + "a" + "](u)" * 30 + "\n", "> " * 30 + "q\n", "[t " + "[" * 25 + "x" + "]" * 25 + "](u)\n"]
+# what is changed on instance and twin alike after a failed call, and the probes that show whether the change took effect
+RECONFS = [
+    ("maxNesting=3", _opt("maxNesting", 3), NEST),
+    ("maxNesting=200", _opt("maxNesting", 200), NEST),
+    ("maxNesting=1", _opt("maxNesting", 1), NEST[:3]),
+    ("typographer", _opt("typographer", _FLIP), ['"q" \'s\' -- (c) ... +-\n']),
+    ("quotes", _opt("quotes", "«»‹›"), ['"q" \'s\' "a \'b\' c"\n']),
+    ("breaks", _opt("breaks", _FLIP), ["a\nb\n\n> c\n> d\n"]),
+    ("html", _opt("html", _FLIP), ["<b>x</b> <!-- c -->\n\n<div>\ny\n</div>\n"]),
+    ("xhtmlOut", _opt("xhtmlOut", _FLIP), ["a  \nb ![i](s)\n\n---\n"]),
+    ("langPrefix", _opt("langPrefix", "x-"), ["```js\nx\n```\n"]),
+    ("disable emphasis,link", _rules(["emphasis", "link"]), ["*a* [l](u) ![i](s)\n"]),
+    ("disable fence,image", _rules(["fence", "image"]), ["```\nx\n```\n\n![i](s)\n"]),
+]
+
+
+def _probe_docs(md, docs):
+    out = []
+    for p in docs:
+        env = {}
+        try:
+            out.append((md.render(p, env), env))
+        except BaseException as e:  # noqa: BLE001
+            out.append(f"EXC {type(e).__name__}: {e}")
+    return out
+
+
+def reconfigure_and_compare(ctx, md, ctl, conf, record=True):
+    """the instance that saw the failed call(s) and a live twin that did not see it receive the same reconfiguration; both must answer alike"""
+    tw = ctl.get("twin")
+    if tw is None:
+        tw = ctl["twin"] = build(conf)[0]
+    n = ctl["nreconf"] = ctl.get("nreconf", 0) + 1
+    name, (apply, undo), docs = RECONFS[n % len(RECONFS)]
+    via_attr = bool((n // len(RECONFS)) % 2)
+    olds = [apply(m, via_attr) for m in (md, tw)]
+    got, want = _probe_docs(md, docs), _probe_docs(tw, docs)
+    for m, old in zip((md, tw), olds):
+        undo(m, old, via_attr)
+    if record:
+        ctx.count("post_fault_reconfigurations")
+        if got != _probe_docs(tw, docs):
+            ctx.count("post_fault_reconfigurations.effective")
+    if got != want:
+        j = next(k for k in range(len(got)) if got[k] != want[k])
+        return [("post-reconfiguration-differs", f"after the failed call, then {name}: probe {docs[j]!r} gives {str(got[j])[:200]!r}, twin {str(want[j])[:200]!r}")]
+    return []
+
+
 class Boom(BaseException):
     pass
 
@@ -49,7 +132,8 @@ CALLBACKS = ["core_first", "core_mid", "core_last", "blk_first", "blk_para", "in
 def floors(tier):
     q = tier == "quick"
     f = {"crash_points.fresh": 5000 if q else 60000, "crash_points.sequence": 3000 if q else 20000, "raised_inside_library": 8000, "fault.silent_invocation": 300,
-         "fault.in_container": 300, "fault.in_skiptoken": 100, "reset_rules.paths": 2000, "hammer.sequences": 100, "reset_rules.nested": 500, "reset_rules.entry_with_empty_chain": 500, "reset_rules.exception_propagated": 1000, "post_state_compared": 8000}
+         "fault.in_container": 300, "fault.in_skiptoken": 100, "reset_rules.paths": 2000, "hammer.sequences": 100, "reset_rules.nested": 500, "reset_rules.entry_with_empty_chain": 500, "reset_rules.exception_propagated": 1000, "post_state_compared": 8000,
+         "post_fault_reconfigurations": 8000, "post_fault_reconfigurations.effective": 4000}
     for c in CALLBACKS:
         f["cb." + c] = 50
     for e in EXC:
@@ -184,6 +268,9 @@ def crash(ctx, md, ctl, conf, api, doc, cb, i, exc, record=True):
     if got != want_probe:
         j = next(k for k in range(len(got)) if got[k] != want_probe[k])
         errs.append(("post-parse-differs", f"after {exc} at {cb}#{i} in {api}: probe {PROBES[j]!r} gives {str(got[j])[:200]!r}, twin {str(want_probe[j])[:200]!r}"))
+    if not errs:
+        for key, msg in reconfigure_and_compare(ctx, md, ctl, conf, record):
+            errs.append((key, f"{msg} | failed call: {exc} at {cb}#{i} in {api}"))
     return errs, True
 
 
